@@ -1,0 +1,20 @@
+//go:build verif
+
+// Machine-checked contracts for package metrics, consumed by /verif/bin/walvc.
+// This file contains no code.
+
+package metrics
+
+//@ -- "The zero value works, writing metrics to the default global instance":
+//@ -- neither method may panic for any *GoMetricsCollector, in particular for
+//@ -- &GoMetricsCollector{} (C20: the bundled collectors never panic)
+//@ func (*GoMetricsCollector).IncrementCounter
+//@   props C20
+//@   requires c != nil
+//@   assigns *
+//@   ensures true
+//@ func (*GoMetricsCollector).SetGauge
+//@   props C20
+//@   requires c != nil
+//@   assigns *
+//@   ensures true
